@@ -7,7 +7,7 @@ Z3 every constructor field is serialised or is in the derived-field table
 import ast
 
 from ..engine.program import AnalysisError, dotted, src, walk_no_nested, call_name
-from ..engine import wire, flow
+from ..engine import wire, flow, staticeval
 
 SER = "src/serialization.py"
 ISO = "src/isoform_assignment.py"
@@ -104,8 +104,8 @@ def _const_value(prog, node, clsdef=None):
         for st in clsdef.body:
             if isinstance(st, ast.Assign) and isinstance(st.targets[0], ast.Name):
                 try:
-                    env[st.targets[0].id] = eval(compile(ast.Expression(st.value), "<c>", "eval"), {}, env)
-                except Exception:
+                    env[st.targets[0].id] = staticeval.const_expr(st.value, env)
+                except staticeval.NoEval:
                     pass
     d = dotted(node)
     if d is not None:
@@ -113,8 +113,8 @@ def _const_value(prog, node, clsdef=None):
         if last in env:
             return env[last]
     try:
-        return eval(compile(ast.Expression(node), "<c>", "eval"), {}, env)
-    except Exception:
+        return staticeval.const_expr(node, env)
+    except staticeval.NoEval:
         raise AnalysisError("cannot evaluate constant %s" % src(node))
 
 
@@ -479,10 +479,18 @@ def z2_codecs(prog, ctx, wc):
             ctx.fail("Z2", m.functions[wq], wq, wq, "codec writer %s has no reader %s" % (wq, rq))
             continue
         pairs += 1
-        from ..engine import inline
-        wf, rf = inline.inlined(prog, m.functions[wq]), inline.inlined(prog, m.functions[rq])    # a codec built on a sibling codec is seen whole
-        ww = _raw_writes(wc, wf)
-        rr = _raw_reads(wc, rf)
+        wf, rf = m.functions[wq], m.functions[rq]
+        # a codec built on sibling codecs is seen whole: its own primitives plus those of the codecs it delegates to (wherever the call stands)
+
+        def closure(fn, prefix, raw, seen=()):
+            out = list(raw(wc, fn))
+            for c in walk_no_nested(fn):
+                cn = call_name(c) if isinstance(c, ast.Call) else None
+                if cn and cn.startswith(prefix) and cn in m.functions and cn not in seen and m.functions[cn] is not fn:
+                    out += closure(m.functions[cn], prefix, raw, seen + (cn,))
+            return out
+        ww = closure(wf, "write_", _raw_writes)
+        rr = closure(rf, "read_", _raw_reads)
         # resolve param widths through defaults
         def res(width, f):
             if isinstance(width, str) and width.startswith("param:"):
@@ -509,10 +517,15 @@ def z2_codecs(prog, ctx, wc):
             ctx.ok("Z2", "%s:%d" % (SER, wf.lineno), "%s/%s primitive layout %s" % (wq, rq, sorted(map(str, wset))),
                    nontrivial=bool(wset))
         # delegation symmetry: write_X calling write_Y  <->  read_X calling read_Y with the same extra args
+        # (delegation to a plain codec is covered by the layout closure above; what remains to compare are the container codecs, whose
+        # layout depends on the element codec they are given)
+        HIGHER = ("list", "list_of_pairs", "dict")
         wdel = sorted((call_name(c)[6:], tuple(src(a) for a in c.args[2:]))
-                      for c in walk_no_nested(wf) if isinstance(c, ast.Call) and (call_name(c) or "").startswith("write_"))
+                      for c in walk_no_nested(wf) if isinstance(c, ast.Call) and (call_name(c) or "").startswith("write_")
+                      and call_name(c)[6:] in HIGHER)
         rdel = sorted((call_name(c)[5:], tuple(src(a) for a in c.args[1:]))
-                      for c in walk_no_nested(rf) if isinstance(c, ast.Call) and (call_name(c) or "").startswith("read_"))
+                      for c in walk_no_nested(rf) if isinstance(c, ast.Call) and (call_name(c) or "").startswith("read_")
+                      and call_name(c)[5:] in HIGHER)
         if wq not in ("write_dict",) and [d for d in wdel] != [d for d in rdel]:
             # loops calling func(val, outf) are not named write_*: only direct delegations compared
             ctx.fail("Z2", rf, "%s / %s" % (wq, rq), "%s vs %s" % (wdel, rdel),
@@ -535,9 +548,41 @@ def z2_codecs(prog, ctx, wc):
         ctx.fail("Z2", rn, "write_int_neg / read_int_neg", "%s vs %s" % (sorted(wshifts), sorted(rshifts)),
                  "sign flag bit differs between writer and reader")
     else:
-        bit = eval(list(wshifts)[0])
         width = wc.consts["LONG_INT_BYTES"]
-        if bit != 1 << (8 * width - 1):
+
+        def arith(e, env):
+            """integer arithmetic over constants, module constants and parameter defaults (nothing is executed)"""
+            if isinstance(e, ast.Constant) and isinstance(e.value, int):
+                return e.value
+            if isinstance(e, ast.Name) and e.id in env:
+                return env[e.id]
+            if isinstance(e, ast.Name) and e.id in wc.consts:
+                return wc.consts[e.id]
+            if isinstance(e, ast.BinOp):
+                l, r = arith(e.left, env), arith(e.right, env)
+                if l is None or r is None:
+                    return None
+                if isinstance(e.op, ast.LShift):
+                    return l << r
+                if isinstance(e.op, ast.Mult):
+                    return l * r
+                if isinstance(e.op, ast.Add):
+                    return l + r
+                if isinstance(e.op, ast.Sub):
+                    return l - r
+            return None
+        shift_node = next(x for x in ast.walk(wn) if isinstance(x, ast.BinOp) and isinstance(x.op, ast.LShift))
+        penv = {}
+        for fn_ in (wn,):
+            ps_ = [a.arg for a in fn_.args.args]
+            for pn_, d_ in zip(ps_[len(ps_) - len(fn_.args.defaults):], fn_.args.defaults):
+                v_ = arith(d_, {})
+                if v_ is not None:
+                    penv[pn_] = v_
+        bit = arith(shift_node, penv)
+        if bit is None:
+            ctx.undecided("Z2", wn, "write_int_neg", "the sign flag expression %s is not constant arithmetic" % list(wshifts)[0])
+        elif bit != 1 << (8 * width - 1):
             ctx.fail("Z2", wn, "write_int_neg", list(wshifts)[0], "sign flag is not the top bit of the %d-byte word" % width)
         else:
             ctx.ok("Z2", "%s:%d" % (SER, wn.lineno), "sign flag = top bit of %d-byte word on both sides" % width)
@@ -850,8 +895,10 @@ def z5_reuse(prog, ctx):
                         d = dotted(t)
                         if d and d.startswith("self."):
                             restored_here.add(".".join(d.split(".")[:2]))
+        from . import c10 as _c10
+        _const_derived = _c10.constant_derived_locations(prog)
         for loc in sorted(written):
-            if loc not in later_reads:
+            if loc not in later_reads or loc in _const_derived:
                 continue
             if loc in restored_here or loc in restored_after:
                 ctx.ok("Z5", "%s:%d" % (DSPM, node.lineno), "%s (left by the skipped collection stage, read later) is rebuilt %s"
